@@ -201,6 +201,22 @@ func c10Scenarios() []c10Scenario {
 				return pub1(ctx, e, T, "")
 			}}
 		}},
+		// a subscription with an injected delivery delay (the /delays feature): what
+		// is published while a pull waits becomes deliverable when the delay is over -
+		// the waiter has to learn about it now, so that it can wake up then (and not
+		// when its own minute-long wait runs out)
+		{"publish-to-a-subscription-with-a-delivery-delay", func(e *rig.Env, v int) *c10World {
+			mkTopic(e, T)
+			mkSub(e, &pubsubpb.Subscription{Name: sub(0), Topic: T})
+			d := []string{"20ms", "35ms", "50ms"}[v%3]
+			if _, err := e.RawDB().ExecContext(context.Background(), `UPDATE subscriptions SET delivery_delay = ? WHERE name = ?`, d, sub(0)); err != nil {
+				panic(err)
+			}
+			if (v/3)%2 == 0 {
+				actions.WakeAllInternal()
+			}
+			return &c10World{e: e, waitSubs: []string{sub(0)}, writer: func(ctx context.Context) error { return pub1(ctx, e, T, "") }}
+		}},
 		{"deadletter-of-ordered-predecessor-by-nack", func(e *rig.Env, v int) *c10World {
 			mkTopic(e, T)
 			mkTopic(e, T2)
